@@ -126,8 +126,16 @@ def check_sub_negates(facts, rep):
         return re.sub(r'&mut _\d+', 'IT', re.sub(r'#(?:i\d+:)?\d+\.\d+', '', show(t, -1000)))
     n = 0
     probs = []
-    for p in SymEx(b, havoc_loops=True, max_paths=5000).run():
-        rhs_iter = any(e.name.endswith('into_iter') and e.args and 'arg2' in dk(e.args[0]) for e in p.calls())
+    from symex import apply_closure
+    work = [(p, None) for p in SymEx(b, havoc_loops=True, max_paths=5000).run()]
+    for p, _ in list(work):
+        # rhs.iter().for_each(|(x, r)| ..): the closure body is the loop body, its parameter an element of rhs
+        for e in p.calls():
+            if e.name.split('::')[-1] == 'for_each' and len(e.args) == 2 and 'arg2' in dk(e.pre[0] if e.pre and e.args[0][0] == 'mref' else e.args[0]):
+                for q in apply_closure(e.args[1], [('item',)], havoc_loops=True) or []:
+                    work.append((q, 'item'))
+    for p, item in work:
+        rhs_iter = item is not None or any(e.name.endswith('into_iter') and e.args and 'arg2' in dk(e.args[0]) for e in p.calls())
         for e in p.calls():
             if not e.args:
                 continue
@@ -137,7 +145,7 @@ def check_sub_negates(facts, rep):
             if '*arg1' not in a0:
                 continue
             rest = [dk(x) for x in e.args[1:]]
-            from_rhs = [r for r in rest if 'arg2' in r or (rhs_iter and 'next(IT)' in r)]
+            from_rhs = [r for r in rest if 'arg2' in r or (rhs_iter and 'next(IT)' in r) or (item is not None and "('item',)" in r)]
             if not from_rhs:
                 continue
             n += 1
